@@ -29,4 +29,25 @@ def rule_copies(ctx):
     ctx.res.rule_instances["O6.4"] = ctx.res.rule_instances.get("O4.3", 0)
 
 
-RULES = [rule_modes, rule_copies]
+def rule_raw_reader_escapes(ctx):
+    """O6.3: whatever is wrong with the container, a raw reader raises DataFormatError (or OSError for the file itself)."""
+    from .c10 import DATA_FORMAT, OSERROR, _chain_text, analysis
+
+    model = ctx.model
+    escape, _ = analysis(model)
+    ctx.res.minimum("O6.3", 4)
+    for reader in ("cutplace.rowio.delimited_rows", "cutplace.rowio.fixed_rows", "cutplace.rowio.ods_rows", "cutplace.rowio.excel_rows"):
+        info = model.func(reader)
+        bad = [item for item in escape.escapes(reader)
+               if not (escape.lattice.is_subclass(item.cls, DATA_FORMAT) or escape.lattice.is_subclass(item.cls, OSERROR))]
+        what = "%s raises nothing but DataFormatError / OSError" % reader.replace("cutplace.", "")
+        if not bad:
+            ctx.res.ok("O6.3", what, True, {"escaping": sorted({item.cls for item in escape.escapes(reader)})})
+        for item in bad:
+            ctx.res.fail("O6.3", what, "%s:O6.3:%s:%s" % (item.origin[0].replace("cutplace.", ""), item.cls, " ".join(item.origin[2].split())[:80]),
+                         "%s:%d (%s)" % (info.module.relpath, item.origin[1], item.origin[0].replace("cutplace.", "")),
+                         "%s raised at %s leaves %s: a malformed container does not stop reading with a data-format error; chain: %s"
+                         % (item.cls.replace("builtins.", ""), item.origin[2], reader.replace("cutplace.", ""), _chain_text(item)))
+
+
+RULES = [rule_modes, rule_copies, rule_raw_reader_escapes]
